@@ -126,8 +126,10 @@ def _prune_cache(keep=8):
     except FileNotFoundError:
         return
     ents.sort(key=lambda p: os.path.getmtime(p), reverse=True)
+    now = time.time()
     for p in ents[keep:]:
-        shutil.rmtree(p, ignore_errors=True)
+        if now - os.path.getmtime(p) > 1800:      # never remove facts another run may be reading
+            shutil.rmtree(p, ignore_errors=True)
 
 
 def facts_dir_for(config="full", repo=None):
@@ -137,7 +139,7 @@ def facts_dir_for(config="full", repo=None):
     th, nfiles = tree_hash(repo)
     top = os.path.join(CACHE, "facts-" + th)
     d = os.path.join(top, config)
-    lock = open(os.path.join(CACHE, "lock-" + config), "w")
+    lock = open(os.path.join(CACHE, "lock-%s-%s" % (th, config)), "w")
     fcntl.flock(lock, fcntl.LOCK_EX)
     try:
         if not os.path.exists(os.path.join(d, "meta.json")):
@@ -150,6 +152,10 @@ def facts_dir_for(config="full", repo=None):
     finally:
         fcntl.flock(lock, fcntl.LOCK_UN)
         lock.close()
+        try:
+            os.unlink(os.path.join(CACHE, "lock-%s-%s" % (th, config)))
+        except OSError:
+            pass
     return d, th, nfiles
 
 
